@@ -97,7 +97,12 @@ def _run(case):
     else: o = o.pipe(ops.take_until(rx.of(1)))
     try:
         o.subscribe(on_next=got.append, on_error=lambda e: got.append("E"))
-        return {"status": "returned", "pulls": pulls[0]}
+        first = pulls[0]
+        # the same pipeline object subscribed again (what repeat/retry/concat(p, p) do): must be bounded as well
+        pulls[0] = 0
+        del got[:]
+        o.subscribe(on_next=got.append, on_error=lambda e: got.append("E"))
+        return {"status": "returned", "pulls": first, "pulls2": pulls[0]}
     except Budget:
         return {"status": "budget", "pulls": pulls[0]}
     except RecursionError:
@@ -116,7 +121,8 @@ def impl(case):
 
 def bounded(case, out):
     extra = 1 if case["shape"] == "concat_after" else 0
-    return out["status"] == "returned" and out["pulls"] <= needed(case["term"], case["n"]) + 2 + extra
+    lim = needed(case["term"], case["n"]) + 2 + extra
+    return out["status"] == "returned" and out["pulls"] <= lim and out.get("pulls2", 0) <= lim
 
 
 def canon_impl(case, out):
